@@ -20,7 +20,13 @@ import (
 // Rng is SplitMix64. Every random choice of a run derives from one state.
 type Rng struct{ s uint64 }
 
-func NewRng(seed uint64) *Rng { return &Rng{s: seed*0x9E3779B97F4A7C15 + 0x1234567} }
+// NewRng hashes the seed so that neighbouring seeds give unrelated streams.
+func NewRng(seed uint64) *Rng {
+	r := &Rng{s: seed ^ 0xA5A5A5A5DEADBEEF}
+	a := r.U64()
+	b := r.U64()
+	return &Rng{s: a ^ (b << 1) ^ seed*0xD6E8FEB86659FD93}
+}
 
 func (r *Rng) U64() uint64 {
 	r.s += 0x9E3779B97F4A7C15
